@@ -363,6 +363,7 @@ class Executor:
         self.call_cache = {}
         self.cache_hits = 0
         self.deadline = None
+        self.watch_fn = None
         self.cut_points = set()
 
     # ---------------------------------------------------------------- solver
@@ -959,6 +960,11 @@ class Executor:
         fr.dest = dest
         fr.ret_bb = ret_bb
         fr.caller = caller_fid
+        if self.watch_fn is not None and f.name == self.watch_fn:
+            # recursion depth of the watched function (frames of it already on the stack)
+            dpt = sum(1 for fid_ in st.stack if st.frames.get(fid_) is not None and st.frames[fid_].fn is f)
+            if dpt > st.aux.get('rec_depth', 0):
+                st.aux['rec_depth'] = dpt
         # const generic parameters that are array lengths of parameters (`_2: &[T; N]`): bound from the actual argument
         cg = None
         for i, t in enumerate(getattr(f, 'arg_types', None) or []):
